@@ -40,6 +40,9 @@ def enumerate_cases(tier):
                         if short is None and ts in ("absent", "right"):
                             # the same forcing with zero-valued entries (wind from north, calm, ...): legitimate values that are falsy
                             yield {"forcing": forcing, "pat": list(pat), "L": L, "short": short, "ts": ts, "zeros": True}
+                            if L >= 2:
+                                # every list holds the same value at every step (steady conditions): steps still count one by one
+                                yield {"forcing": forcing, "pat": list(pat), "L": L, "short": short, "ts": ts, "constant": True}
 
 
 def build_met(case, seed):
@@ -60,7 +63,7 @@ def build_met(case, seed):
             continue
         if case["pat"][k]:
             n = L - 1 if case["short"] == k else L
-            met[f] = [round(base[f] + i * step[f], 6) for i in range(n)]
+            met[f] = [round(base[f] + (0 if case.get("constant") else i) * step[f], 6) for i in range(n)]
         else:
             met[f] = round(base[f], 6)
     if case["forcing"] in ("z0", "both"):
@@ -251,6 +254,46 @@ def case_series(case):
     return {"v": v, "nt": nontrivial, "n": nexec, "obs": {"model_steps": n, "first": exp[0]}}
 
 
+def case_yaml_history(case):
+    """one configuration file rewritten in place and loaded again: every load must reflect what the file says NOW"""
+    import yaml
+
+    from bldfm.config_parser import load_config
+
+    path = os.path.join(os.getcwd(), "shared_%s.yaml" % core.case_hash(case))
+    v = []
+    try:
+        for k, i in enumerate(case["ops"]):
+            met = dict(YAML_METS[i])
+            with open(path, "w") as f:
+                yaml.safe_dump(dict(RAW_BASE, met=met), f)
+            try:
+                exp = metseries.steps(met)
+            except metseries.Reject as e:
+                exp = None
+            try:
+                cfg = load_config(path)
+                got = [cfg.met.get_step(j) for j in range(cfg.met.n_timesteps)]
+            except Exception as e:
+                got = None
+            ok = (exp is None and got is None) or (exp is not None and got is not None and len(got) == len(exp) and all(all(g.get(kk) == vv for kk, vv in e.items()) for g, e in zip(got, exp)))
+            if not ok:
+                v.append({"sub": "yaml-history", "sig": "yaml-history", "msg": "load %d of the history %s on one file path: the file now holds met=%r but the loaded configuration gives %s" % (k, case["ops"], met, "a rejection" if got is None else "%d steps, first %r" % (len(got), got[:1]))})
+                break
+    finally:
+        if os.path.exists(path):
+            os.unlink(path)
+    return {"v": v, "nt": len(case["ops"]) > 1, "n": len(case["ops"])}
+
+
+YAML_METS = [
+    {"ustar": 0.4, "wind_dir": [10.0, 20.0, 30.0]},
+    {"ustar": [0.3, 0.5], "mol": [-40.0, 60.0], "timestamps": ["a", "b"]},
+    {"ustar": [0.3, 0.5], "mol": [-40.0, 60.0, 70.0]},
+    {"wind_speed": 3.0},
+    {"z0": 0.1, "wind_speed": [2.0, 3.0, 4.0, 5.0], "timestamps": ["p", "q", "r", "s"]},
+]
+
 HIST_OPS = [
     {"ustar": 0.4, "wind_dir": [10.0, 20.0, 30.0]},
     {"ustar": [0.3, 0.5], "mol": [-40.0, 60.0], "timestamps": ["a", "b"]},
@@ -287,6 +330,8 @@ def run(ctx):
     from vf import histories
 
     histories.run(ctx, __name__, 2 if ctx.tier == "quick" else 3)
+    yh = [{"ops": list(h)} for d in (2, 3) for h in itertools.product(range(len(YAML_METS)), repeat=d)]
+    ctx.run_cases(case_yaml_history, yh, sub="yaml-file-histories")
 
 MANIFEST = {
     "technique": "bounded-exhaustive enumeration of the complete forcing lattice against a list reference model, with step indices observed at every consumer",
